@@ -1,7 +1,27 @@
 package sim
 
-import "testing"
+import (
+	"fmt"
+	"os"
+	"path/filepath"
+	"testing"
+)
 
 func RunComp(t *testing.T, in *RunInput) {}
 
-func moreOracles(r *e2e, t *tracker) []Oracle { return nil }
+func moreOracles(r *e2e, t *tracker) []Oracle {
+	var c02 *oC02
+	for _, o := range r.k.Oracles {
+		_ = o
+	}
+	c02 = &oC02{r: r, t: t}
+	out := []Oracle{&oC03{r: r}}
+	if f, err := os.OpenFile(filepath.Join(r.in.JobDir, fmt.Sprintf("exch.%d.jsonl", r.in.Phase)), os.O_CREATE|os.O_WRONLY|os.O_APPEND, 0o644); err == nil {
+		out = append(out, &exchWriter{r: r, t: t, c02: c02, f: f, done: map[*exchange]bool{}})
+	}
+	if r.in.Phase > 0 {
+		r.c04 = &oC04{r: r, t: t}
+		out = append(out, r.c04)
+	}
+	return out
+}
